@@ -436,7 +436,9 @@ def run(ctx):
     # (D) end to end: the real script drives the REAL command-line programs (prepare, train, distance, scores, select, reveal,
     # metadata) in-process along the workflow DAG; TracePipeline replays one event per completed step
     from harness.pipeline import run_e2e
-    run_e2e(ctx, "C19", [(2, ctx.seed)] if ctx.quick else [(b, ctx.seed + k) for b in (1, 2, 3) for k in (0, 1)])
+    rnd2 = random.Random(ctx.seed + 99)
+    run_e2e(ctx, "C19", [(2, ctx.seed), (2, ctx.seed, rnd2.randint(1, 22))] if ctx.quick else
+            [(b, ctx.seed + k) for b in (1, 2, 3) for k in (0, 1)] + [(b, ctx.seed, c) for b in (2, 3) for c in range(0, 26, 2)])
     ctx.assumptions += ["Nextflow is replaced by a model pipeline: publishing a file is atomic and respects the process dependencies of the "
                         "launched workflow (and only those)", "the operator removes exactly the directory the script names",
                         "--batch-size and the input screen do not change between reruns",
